@@ -286,6 +286,74 @@ def stateless_check():
     return dict(failures=failures, checked=checked)
 
 
+def shared_check():
+    """ownership/frame condition behind C19: no state reachable from two threads.  Every `static` of the six crates is either
+    inside thread_local! or immutable data; nothing uses process-global mutators; nobody claims Send/Sync by hand; no
+    threads are spawned; the unsafe blocks are the known ones (they touch their arguments only)."""
+    failures = []
+    undecided = []
+    checked = 0
+    base_p = os.path.join(VERIF, 'gvc', 'baseline.json')
+    known_unsafe = set(tuple(x) for x in json.load(open(base_p)).get('unsafe_sites', [])) if os.path.exists(base_p) else set()
+    MUT = r'Mutex|RwLock|Atomic\w+|RefCell|\bCell\b|UnsafeCell|Condvar'
+    ONCE = r'OnceCell|OnceLock|LazyLock|\bLazy\b|\bOnce\b'
+    for crate in ('sv-parser-parser', 'sv-parser-pp', 'sv-parser', 'sv-parser-syntaxtree', 'sv-parser-error', 'sv-parser-macros'):
+        for rel, raw in crate_text(crate):
+            src = front.blank_strings(raw)
+            src = re.sub(r'//[^\n]*', lambda m: ' ' * len(m.group(0)), src)
+            checked += 1
+            def at(m):
+                return Dummy(rel, raw.count('\n', 0, m.start()) + 1)
+            # spans of thread_local! invocations
+            tl_spans = []
+            for m in re.finditer(r'thread_local!\s*[\(\{]', src):
+                o = m.end() - 1
+                d, j = 0, o
+                close = {'(': ')', '{': '}'}[src[o]]
+                while j < len(src):
+                    if src[j] == src[o]:
+                        d += 1
+                    elif src[j] == close:
+                        d -= 1
+                        if d == 0:
+                            break
+                    j += 1
+                tl_spans.append((o, j))
+            for m in re.finditer(r"(?<![\w'&])static\s+(mut\s+)?(\w+)\s*:\s*([^=;]+)", src):
+                if any(a <= m.start() < b for a, b in tl_spans):
+                    continue
+                name, ty = m.group(2), m.group(3)
+                checked += 1
+                if m.group(1):
+                    failures.append(fail('-', 'C19.shared-state.static-mut.%s' % name, '`static mut %s`: state every thread reads and writes' % name, ['C19', 'C07'], at(m)))
+                elif re.search(MUT, ty):
+                    failures.append(fail('-', 'C19.shared-state.static.%s' % name, 'static %s: %s is mutable state shared by all threads' % (name, ty.strip()[:60]), ['C19', 'C07'], at(m)))
+                elif re.search(ONCE, ty):
+                    undecided.append('%s: static %s: %s is initialised once and shared by all threads; whether results can depend on who initialises it is not decided' % (rel, name, ty.strip()[:60]))
+            for m in re.finditer(r'lazy_static!', src):
+                checked += 1
+                seg = src[m.end():m.end() + 600]
+                if re.search(MUT, seg):
+                    failures.append(fail('-', 'C19.shared-state.lazy_static', 'lazy_static! holding mutable state shared by all threads', ['C19', 'C07'], at(m)))
+                else:
+                    undecided.append('%s: lazy_static!: shared lazily initialised state' % rel)
+            for m in re.finditer(r'\b(?:env::)?(set_var|remove_var|set_current_dir)\s*\(', src):
+                checked += 1
+                failures.append(fail('-', 'C19.process-global.%s' % m.group(1), '%s(): changes process-wide state that calls on other threads read' % m.group(1), ['C19', 'C07'], at(m)))
+            for m in re.finditer(r'unsafe\s+impl\b[^{;]*\b(Send|Sync)\b', src):
+                checked += 1
+                failures.append(fail('-', 'C19.manual-%s' % m.group(1), 'unsafe impl %s: thread safety asserted by hand' % m.group(1), ['C19'], at(m)))
+            for m in re.finditer(r'\b(?:thread::spawn|thread::scope|rayon::|\.par_iter\(|tokio::spawn)', src):
+                undecided.append('%s: the crate starts threads itself (%s)' % (rel, m.group(0)))
+            for m in re.finditer(r'\bunsafe\s*\{', src):
+                checked += 1
+                ln = raw.count('\n', 0, m.start())
+                line = re.sub(r'\s+', ' ', raw.split('\n')[ln]).strip()
+                if (rel, line) not in known_unsafe:
+                    undecided.append('%s:%d: unsafe block not in the committed list (could reach memory other threads use): %s' % (rel, ln + 1, line[:80]))
+    return dict(failures=failures, checked=checked, undecided=undecided)
+
+
 def effects_run(fns, table, comb):
     failures = []
     checked = 0
